@@ -27,7 +27,7 @@ var (
 	pointPool = []string{"0,0 1,1 2,0", "0,0 1,1", "0,0 1", "1", "", " ", "0,0,1,1,2", "0 0 1 1 2 0 3", "1,", ",", "1,,2", "a,b", "0,0 1e,1", "1e400,0 0,0", "0,0\n5,5\t9,0", "-1-2-3-4", "1 2 3 4 5 6 7 8 9"}
 	pathPool  = []string{"M0 0L5 5z", "M0 0", "", " ", "M", "M0", "M0 0L", "L5 5", "M0 0A1 1 0 0", "M0 0A1 1 0 1 1", "M0 0C1 1 2 2", "M0 0h", "M0 0Q1", "M0 0zL1 1", "M1e400 0L0 0", "m1 1 2 2 3 3z", "M0,0T1 1S2 2 3 3", "M0 0L1 1M", "z", "M0 0a1 1 0 11 2 2"}
 	transPool = []string{"rotate(30)", "rotate(30 1 2)", "rotate(", "rotate()", "rotate(1 2)", "translate(1)", "translate(1,2)", "translate(", "scale(2)", "scale()", "scale(1 2 3)", "matrix(1 0 0 1 0 0)", "matrix(1 2 3)", "matrix()", "skewX(45)", "skewY(45", "skewX()", "foo(1)", "rotate(30) translate(1,2) scale(2)", "rotate(30)translate(1", ")", "(", "rotate 30", "", " ", "rotate(a)", "translate(1e400)", "rotate(30),,scale(2)"}
-	paintPool = []string{"red", "none", "#fff", "#ffffff", "#ffff", "#12", "#", "#ggg", "rgb(1,2,3)", "rgb(1,2", "rgb(10%,20%,30%)", "rgb()", "rgb(1,2,3,4)", "rgba(1,2,3,.5)", "url(#a)", "url(", "currentColor", "", " ", "transparent", "RED", "rgb(a,b,c)", "rgb(300,-1,1e9)"}
+	paintPool = []string{"red", "none", "#fff", "#ffffff", "#ffff", "#12", "#", "#ggg", "rgb(1,2,3)", "rgb(1,2", "rgb(10%,20%,30%)", "rgb()", "rgb(1,2,3,4)", "rgba(1,2,3,.5)", "url(#a)", "url(", "url(\"#)", "url(\"#a\")", "url(a#)", "url(#)", "currentColor", "", " ", "transparent", "RED", "rgb(a,b,c)", "rgb(300,-1,1e9)"}
 	dashPool  = []string{"1 2", "1,2", "1,", "none", "-1 2", "0 0", "", "1", "1 2 3", "a", "1e400", "5%", "1 , , 2"}
 	stylePool = []string{"fill:red", "fill:red;stroke:blue", "fill:red;stroke", ";;", "fill:", ":red", "fill", "stroke-width:2;;fill:none;", "fill:url(#a", "stroke-dasharray:1,", "fill-rule:evenodd", "fill-rule:", "stroke-linejoin:miter;stroke-miterlimit:", "a:b:c", ""}
 	cssPool   = []string{"rect{fill:blue}", ".a>path{stroke:red}", "{", "}", "a{b", "#id{fill:#f}", "@media x{rect{}}", "/* */", "rect,circle{fill:red}", "g path{stroke-width:}", ".a.b{}", "*{fill:none}", "rect{fill:red;", "rect{:}", ">{}", "g>{fill:red}", ".{}", "#{}", "rect{fill:rgb(}", ""}
